@@ -109,6 +109,8 @@ pub struct Driver {
     /// with `lenient`: also keep going after a call returned an I/O error (C17: a foreign entry that occupies
     /// the next WAL name makes the roll-over fail; what the *following* calls touch is what matters)
     pub lenient_io: bool,
+    /// C12 (live): next position of every queue as last observed (None: queue absent)
+    seen_next: BTreeMap<String, u64>,
     /// keep the observation after every step (metamorphic engines)
     pub keep_obs: bool,
     pub obs_log: Vec<Option<Obs>>,
@@ -148,6 +150,7 @@ impl Driver {
             light: false,
             lenient: false,
             lenient_io: false,
+            seen_next: BTreeMap::new(),
             keep_obs: false,
             obs_log: Vec::new(),
             hw: BTreeMap::new(),
@@ -180,6 +183,7 @@ impl Driver {
             light: false,
             lenient: false,
             lenient_io: false,
+            seen_next: BTreeMap::new(),
             keep_obs: false,
             obs_log: Vec::new(),
             hw: BTreeMap::new(),
@@ -216,6 +220,7 @@ impl Driver {
             light: false,
             lenient: false,
             lenient_io: false,
+            seen_next: BTreeMap::new(),
             keep_obs: false,
             obs_log: Vec::new(),
             hw: BTreeMap::new(),
@@ -323,6 +328,7 @@ impl Driver {
                 // keep the position monitor running on what the log actually does
                 self.c04_monitor(idx, &op, &outcome, model_before_nonempty_all_gone);
                 if let Ok(obs) = self.world.observe() {
+                    self.c12_live_batch(&op, &outcome, &obs);
                     // a queue that was never deleted but is gone after a restart has lost its positions
                     if matches!(op, Op::Restart { .. }) {
                         let lost: Vec<(String, u64)> = self.model.queues.iter().filter(|(n, _)| !obs.queues.contains_key(*n)).filter_map(|(n, mq)| self.hw.get(&(n.clone(), mq.incarnation)).map(|h| (n.clone(), *h))).collect();
@@ -358,6 +364,10 @@ impl Driver {
         // failures below are attributed to `idx`; temporarily pop the step count view
         let failures_before = self.failures.len();
 
+        if let Some(obs) = &obs_opt {
+            let obs = obs.clone();
+            self.c12_live_batch(&op, &outcome, &obs);
+        }
         if !self.light {
             self.range_probes(idx, &obs_opt);
         }
@@ -376,6 +386,23 @@ impl Driver {
         debug_assert_eq!(step_no, self.steps.len());
         self.models.push(self.model.clone());
         outcome
+    }
+
+    // ---------------------------------------------------------------- C12 (live): a batch is applied whole or not at all
+    fn c12_live_batch(&mut self, op: &Op, outcome: &Outcome, obs: &Obs) {
+        if let (Op::Append { q, pos, lens, .. }, Outcome::Appended { .. }) = (op, outcome) {
+            if lens.len() >= 2 {
+                let name = self.names[*q].clone();
+                if let (Some(prev_next), Some(oq)) = (self.seen_next.get(&name).copied(), obs.queues.get(&name)) {
+                    let first = pos.unwrap_or(prev_next).max(prev_next);
+                    let added = oq.recs.iter().filter(|r| r.pos >= first).count();
+                    if added != 0 && added != lens.len() {
+                        self.fail("C12", "batch-partially-applied", format!("{} appended {} records in one call; {} of them are in the queue afterwards", op.short(), lens.len(), added));
+                    }
+                }
+            }
+        }
+        self.seen_next = obs.queues.iter().map(|(n, q)| (n.clone(), q.last_position.map(|p| p + 1).unwrap_or(0))).collect();
     }
 
     // ---------------------------------------------------------------- C05 range probes
